@@ -317,6 +317,127 @@ S = {
  "C20-5": ("C20", "/tmp/seed3/C20/_seed/3", "s3/seed3_demo3_test.go", "^(TestSeed3Demo3_)", "./s3/", ['C20'], "",
    "AcquireLease supersedes a live lease whose Owner equals its own",
    "two distinct instances with the same Owner string, the second acquiring while the first's lease is live"),
+ # ---- fourth wave (two changes per property, after the fixes of this round)
+ "C01-6": ("C01", "/tmp/seed4/C01/_seed/1", "seed4_demo1_test.go", "^(TestSeed4Demo1_)", ".", ['C01', 'C02', 'C09'], "",
+   'wal_reader.go pageMap refactored to one map with deletion of entries past the last commit: a page changed by a committed, not yet synced transaction and again by an uncommitted tail loses its committed version',
+   'sync while the application has an open write transaction whose dirty pages were cache-spilled to the WAL, touching a page committed since the last sync'),
+ "C01-7": ("C01", "/tmp/seed4/C01/_seed/2", "seed4_demo2_test.go", "^(TestSeed4Demo2_)", ".", ['C04', 'C01'], "",
+   'prevGenerationContinues only counts the frame behind the last synced offset if it is a commit record',
+   'litestream closed; the application commits a transaction of two or more frames, checkpoints completely, commits a short transaction that restarts the WAL; litestream reopens'),
+ "C02-6": ("C02", "/tmp/seed4/C02/_seed/1", "seed4_demo1_test.go", "^(TestSeed4Demo1_)", ".", ['C04', 'C02'], "",
+   'detectFullCheckpoint `len(m) >= 1` -> `> 1` (same idea as C01-1, written independently for C02)',
+   'litestream stopped at the end of the WAL; the application restarts the WAL exactly twice, each generation shorter; restart'),
+ "C02-7": ("C02", "/tmp/seed4/C02/_seed/2", "seed4_demo2_internal_test.go", "^(TestSeed4Demo2_)", ".", ['C06', 'C02', 'C12'], "",
+   'walUncopiedSinceInit cleared by any sync that produced a file (`result.synced || !result.limited`)',
+   'startup backlog larger than MaxSyncWALBytes (chunked catch-up), an application checkpoint after init, a snapshot between two chunks'),
+ "C03-6": ("C03", "/tmp/seed4/C03/_seed/1", "seed4_demo1_test.go", "^(TestSeed4Demo1_)", ".", ['C16', 'C03'], "",
+   'follow-mode Restore: the TXID sidecar write before the database rename dropped as a duplicate (re-introduces F15)',
+   'restore -f killed between renaming the database and writing the sidecar'),
+ "C03-7": ("C03", "/tmp/seed4/C03/_seed/2", "seed4_demo2_test.go", "^(TestSeed4Demo2_)", ".", ['C03', 'C04'], "",
+   'checkDatabaseBehindReplica call removed from init(); the remaining call only runs when the local position is zero',
+   "kill midway through ResetLocalState's RemoveAll leaving some level-0 files but not the newest; restart: position looks valid but is behind the replica"),
+ "C04-6": ("C04", "/tmp/seed4/C04/_seed/1", "seed4_demo1_test.go", "^(TestSeed4Demo1_)", ".", ['C04'], "",
+   'verifyWithExecutor: cursor exactly one frame into the WAL with changed salts no longer forces a snapshot',
+   'cursor left one frame into the WAL by a litestream checkpoint; litestream down while the application writes and restarts the WAL (new generation >= 2 frames); restart with the same meta dir'),
+ "C04-7": ("C04", "/tmp/seed4/C04/_seed/2", "seed4_demo2_test.go", "^(TestSeed4Demo2_)", ".", ['C04'], "",
+   'lastPageMatch reads only the frame header: the page image is no longer compared',
+   'database and -wal rolled back to an earlier copy of the same WAL generation with the meta dir kept; the application writes past the old cursor with the same page number at the cursor'),
+ "C05-6": ("C05", "/tmp/seed4/C05/_seed/1", "seed4_demo1_test.go", "^(TestSeed4Demo1_)", ".", ['C05'], "",
+   'Replica.syncOnce uploads pending L0 files in concurrent batches of 4; after a batch error calcPos (max L0 on the replica) jumps over the hole',
+   'backlog of >= 2 pending L0 files and a transient upload failure of a non-last member of a batch while a later member succeeds'),
+ "C05-7": ("C05", "/tmp/seed4/C05/_seed/2", "seed4_demo2_test.go", "^(TestSeed4Demo2_)", ".", ['C05', 'C06'], "",
+   'Compactor.Compact: when OpenLTXFile fails on a later source it compacts the files opened so far; the output is named for a range it does not contain',
+   'remote-source compaction with >= 2 sources and a transient open failure on a non-first source'),
+ "C06-6": ("C06", "/tmp/seed4/C06/_seed/1", "seed4_demo1_test.go", "^(TestSeed4Demo1_)", ".", ['C06'], "",
+   "Compactor.Compact early exit using the cached newest source (for a DB the local L0 file, not the replica's): output named up to the local max",
+   'replica lag: write, DB.Sync, no Replica.Sync yet, Compact(1)'),
+ "C06-7": ("C06", "/tmp/seed4/C06/_seed/2", "seed4_demo2_test.go", "^(TestSeed4Demo2_)", ".", ['C06', 'C12'], "",
+   'DB.MaxLTXFileInfo no longer holds the cache lock across the remote LIST: a stale lookup overwrites the entry a concurrent compaction just stored',
+   'cold cache after a restart plus a level-1 lookup racing with a finishing Compact(1)'),
+ "C07-6": ("C07", "/tmp/seed4/C07/_seed/1", "seed4_demo1_test.go", "^(TestSeed4Demo1_)", ".", ['C07', 'C12'], "",
+   "Store.EnforceSnapshotRetention keeps retention floors in a map keyed by the database file's base name",
+   "two databases in one Store whose files share a base name; A's expired-snapshot TXID exceeds B's newest snapshot"),
+ "C07-7": ("C07", "/tmp/seed4/C07/_seed/2", "seed4_demo2_test.go", "^(TestSeed4Demo2_)", ".", ['C05', 'C07', 'C06'], "",
+   "Compactor publishes the destination level's new max to the cache before the upload and does not roll it back on failure",
+   'one L1 upload fails transiently while the process keeps running; a later L1 compaction seeks past the failed range; L0 retention deletes the only copies'),
+ "C08-6": ("C08", "/tmp/seed4/C08/_seed/1", "seed4_demo1_test.go", "^(TestSeed4Demo1_)", ".", ['C08'], "",
+   "CalcRestorePlan's trailing gap check looks only at the level-0 cursor",
+   'latest restore, a real TXID gap, and no L0 file beyond the gap (L1 holds 1-5 and 7-10, L0 pruned)'),
+ "C08-7": ("C08", "/tmp/seed4/C08/_seed/2", "seed4_demo2_test.go", "^(TestSeed4Demo2_)", ".", ['C08', 'C15'], "",
+   'CalcRestorePlan: for a timestamp before every snapshot it falls back to the oldest retained snapshot',
+   "timestamp restore with a requested time earlier than every snapshot's CreatedAt"),
+ "C09-6": ("C09", "/tmp/seed4/C09/_seed/1", "seed4_demo1_test.go", "^(TestSeed4Demo1_)", ".", ['C09', 'C04'], "",
+   "NewWALReaderWithOffset: the caller's salts are overwritten by readHeader(), a resumed reader accepts a previous frame from a newer WAL generation",
+   'resume offset past the header, WAL restarted since the last sync and regrown beyond the old offset'),
+ "C09-7": ("C09", "/tmp/seed4/C09/_seed/2", "seed4_demo2_test.go", "^(TestSeed4Demo2_)", ".", ['C09', 'C01'], "",
+   'pageMap prunes pages beyond the commit size only when a commit record lowered the size',
+   'a single transaction that spills high page numbers and commits at the old size (auto_vacuum=FULL, small cache, grow-then-delete in one transaction)'),
+ "C10-6": ("C10", "/tmp/seed4/C10/_seed/1", "seed4_demo1_test.go", "^(TestSeed4Demo1_)", ".", ['C10'], "",
+   "file.ReplicaClient.LTXFiles no longer lists zero-length files: Restore's size check never sees a plan file truncated to 0",
+   'truncate at offset 0 of the newest plan file (the level-0 tail)'),
+ "C10-7": ("C10", "/tmp/seed4/C10/_seed/2", "seed4_demo2_test.go", "^(TestSeed4Demo2_)", ".", ['C10'], "",
+   'Restore claims the output path with an O_EXCL placeholder; an early return leaves a 0-byte file at the output path',
+   'any plan file truncated to fewer than 100 bytes'),
+ "C11-6": ("C11", "/tmp/seed4/C11/_seed/1", "seed4_demo1_test.go", "^(TestSeed4Demo1_)", ".", ['C11'], "",
+   'checkDatabaseBehindReplica fsyncs <meta>/ltx instead of <meta>/ltx/0 after renaming the fetched baseline',
+   'database-behind-replica sequence (meta directory lost, restart)'),
+ "C11-7": ("C11", "/tmp/seed4/C11/_seed/2", "seed4_demo2_test.go", "^(TestSeed4Demo2_)", ".", ['C11'], "",
+   'syncParentDir helper returns nil when filepath.Dir(path) == "."',
+   'restore output path without a directory component'),
+ "C12-6": ("C12", "/tmp/seed4/C12/_seed/1", "seed4_demo1_test.go", "^(TestSeed4Demo1_)", ".", ['C12'], "",
+   "DB.Close acquires the executor with the caller's context (lockExec) instead of context.WithoutCancel",
+   'Close with a deadline that expires while another operation holds the executor: returns before any cleanup'),
+ "C12-7": ("C12", "/tmp/seed4/C12/_seed/2", "seed4_demo2_test.go", "^(TestSeed4Demo2_)", ".", ['C12', 'C13'], "",
+   'DB.Snapshot closes the stream only after a successful upload (same idea as C13-3)',
+   'a storage fault that makes a level-9 upload return an error before draining the stream'),
+ "C13-6": ("C13", "/tmp/seed4/C13/_seed/1", "seed4_demo1_test.go", "^(TestSeed4Demo1_)", ".", ['C13'], "",
+   'checkpointIfNeeded truncate rule checks only the offset the sync started from',
+   'TruncatePageN below MinCheckpointPageN and the WAL crossing the truncate threshold between two syncs'),
+ "C13-7": ("C13", "/tmp/seed4/C13/_seed/2", "seed4_demo2_test.go", "^(TestSeed4Demo2_)", ".", ['C13'], "",
+   'two cooperating sites: the bookkeeping frame is copied at once after a PASSIVE checkpoint that could not restart the WAL; MinCheckpointPageN rule guarded by syncedSinceCheckpoint',
+   "a short application read transaction overlapping one sync's checkpoint, then the application goes idle"),
+ "C14-6": ("C14", "/tmp/seed4/C14/_seed/1", "seed4_demo1_test.go", "^(TestSeed4Demo1_)", ".", ['C14'], "",
+   'promoteToWriteTx helper: the busy retry of the _litestream_lock insert runs on db.db instead of the transaction and autocommits a row',
+   "an application write transaction holding the lock for longer than litestream's busy timeout exactly when litestream promotes its own transaction"),
+ "C14-7": ("C14", "/tmp/seed4/C14/_seed/2", "seed4_demo2_test.go", "^(TestSeed4Demo2_)", ".", ['C14'], "",
+   'init records the journal mode it found and Close switches a non-WAL database back to it',
+   'a database that was not in WAL mode when litestream first touched it, clean Close, no other connection open'),
+ "C15-6": ("C15", "/tmp/seed4/C15/_seed/1", "seed4_demo1_test.go", "^(TestSeed4Demo1_)", ".", ['C15', 'C08'], "",
+   'restoreLevelCursor.refresh: `!CreatedAt.Before(T)` -> `CreatedAt.After(T)` (inclusive boundary for non-snapshot files)',
+   'T exactly equal to the creation time of an L0 or compacted file'),
+ "C15-7": ("C15", "/tmp/seed4/C15/_seed/2", "seed4_demo2_test.go", "^(TestSeed4Demo2_)", ".", ['C15', 'C08'], "",
+   'CalcRestorePlan moves a whole-second target +1 s',
+   'T on a whole second and a transaction replicated within [T, T+1s)'),
+ "C16-6": ("C16", "/tmp/seed4/C16/_seed/1", "seed4_demo1_test.go", "^(TestSeed4Demo1_)", ".", ['C16'], "",
+   'follow-resume check refuses when earliestSnapshot.MaxTXID > saved TXID',
+   'follower restarted while its saved TXID is below the earliest snapshot although every later LTX file still exists'),
+ "C16-7": ("C16", "/tmp/seed4/C16/_seed/2", "seed4_demo2_test.go", "^(TestSeed4Demo2_)", ".", ['C16'], "",
+   'fillFollowGap stops escalating to higher levels once a level shows a gap',
+   'L0 compacted away, the covering L1 file removed by retention, an L2 file still covers the follower position'),
+ "C17-6": ("C17", "/tmp/seed4/C17/_seed/1", "seed4_demo1_test.go", "^(TestSeed4Demo1_)", ".", ['C17', 'C16'], "",
+   'follow-mode applyLTXFile rejects a page written beyond the end of the file, with no exemption across the lock page',
+   'follower started while the database is under 1 GiB; the source then grows across the lock page'),
+ "C17-7": ("C17", "/tmp/seed4/C17/_seed/2", "seed4_demo2_test.go", "^(TestSeed4Demo2_)", ".", ['C17'], "",
+   'writeLTXFromDB split into runs below and above the lock page with `commit > lockPgno+1`',
+   'a full copy taken while the database has exactly lockPgno+1 pages'),
+ "C18-6": ("C18", "/tmp/seed4/C18/_seed/1", "cmd/litestream-vfs/seed4_demo1_test.go", "^(TestSeed4Demo1_)", "./cmd/litestream-vfs/", ['C18'], "-tags=vfs,verif",
+   "Hydrator.CatchUp skips restore-plan files whose MinTXID (was MaxTXID) is at or before the hydrated copy's TXID",
+   "hydrated copy behind the position and an L1+ file straddling the copy's TXID with at least one more plan file after it"),
+ "C18-7": ("C18", "/tmp/seed4/C18/_seed/2", "cmd/litestream-vfs/seed4_demo2_test.go", "^(TestSeed4Demo2_)", "./cmd/litestream-vfs/", ['C18'], "-tags=vfs,verif",
+   'VFS pollLevel: shrink detection limited to level 0',
+   'a read replica that catches up through L1 across a VACUUM / auto_vacuum shrink'),
+ "C19-6": ("C19", "/tmp/seed4/C19/_seed/1", "seed4_demo1_test.go", "^(TestSeed4Demo1_)", ".", ['C19'], "",
+   'applyWALSegmentsV3 starts a new WAL file on an index change; the first listed segment of an index is accepted at any offset',
+   'a WAL index with exactly two segments whose offset-0 segment is missing'),
+ "C19-7": ("C19", "/tmp/seed4/C19/_seed/2", "seed4_demo2_test.go", "^(TestSeed4Demo2_)", ".", ['C19'], "",
+   'RestoreV3 logs and skips a SnapshotsV3 listing error for a generation',
+   "two legacy generations and a transient listing error for the newest one during RestoreV3's collection pass"),
+ "C20-6": ("C20", "/tmp/seed4/C20/_seed/1", "s3/seed4_demo1_test.go", "^(TestSeed4Demo1_)", "./s3/", ['C20'], "",
+   "RenewLease writes the caller's lease back with If-None-Match:* when the lock object is gone",
+   'A acquires, expires; B acquires, releases; A renews its old lease'),
+ "C20-7": ("C20", "/tmp/seed4/C20/_seed/2", "s3/seed4_demo2_test.go", "^(TestSeed4Demo2_)", "./s3/", ['C20'], "",
+   'writeLease stores ExpiresAt truncated to the second; the holder keeps full precision',
+   "a contender acquiring in the last sub-second of the holder's lease"),
 }
 
 
